@@ -55,6 +55,39 @@ static void leafQuantities(const ExprP &e, std::set<int> &out)
     }
 }
 
+// everything the analysis says about a model, as text (variables by path, so that two analyses are comparable)
+static std::string analysisDigest(const AnalyserPtr &analyser)
+{
+    auto am = analyser->model();
+    if (am == nullptr) {
+        return "null";
+    }
+    std::string d = "type=" + AnalyserModel::typeAsString(am->type()) + " errors=" + std::to_string(analyser->errorCount()) + " issues=" + std::to_string(analyser->issueCount()) + "\n";
+    if (!am->isValid()) {
+        for (size_t i = 0; i < analyser->issueCount(); ++i) {
+            d += "issue " + analyser->issue(i)->description() + "\n";
+        }
+        return d;
+    }
+    if (am->voi() != nullptr) {
+        d += "voi " + variablePath(am->voi()->variable()) + "\n";
+    }
+    for (const auto &v : am->states()) {
+        d += "state " + std::to_string(v->index()) + " " + variablePath(v->variable()) + " eqs=" + std::to_string(v->equationCount()) + "\n";
+    }
+    for (const auto &v : am->variables()) {
+        d += "variable " + std::to_string(v->index()) + " " + variablePath(v->variable()) + " " + AnalyserVariable::typeAsString(v->type()) + " eqs=" + std::to_string(v->equationCount()) + "\n";
+    }
+    for (const auto &e : am->equations()) {
+        d += "equation " + AnalyserEquation::typeAsString(e->type()) + " deps=" + std::to_string(e->dependencyCount()) + " nla=" + std::to_string(e->nlaSystemIndex() == static_cast<size_t>(-1) ? -1L : static_cast<long>(e->nlaSystemIndex())) + " computes";
+        for (const auto &v : e->variables()) {
+            d += " " + variablePath(v->variable());
+        }
+        d += "\n";
+    }
+    return d;
+}
+
 // analyse one rendering of the model; checks structural invariants when valid
 static Classification analyse(const SemModel &m, const IrModel &ir, Rng &rng, const std::string &variant, bool judgeInvariants)
 {
@@ -77,6 +110,24 @@ static Classification analyse(const SemModel &m, const IrModel &ir, Rng &rng, co
     cl.issues = issueSummary(*analyser, 5);
     if (am == nullptr) {
         return cl;
+    }
+    // "consistently": analysing the SAME model object again, with the same analyser and with a new one, says the same
+    if (judgeInvariants) {
+        std::string d1 = analysisDigest(analyser);
+        analyser->analyseModel(model);
+        monitorLogger(*analyser, "Analyser::analyseModel(again)", text);
+        std::string d2 = analysisDigest(analyser);
+        auto fresh = Analyser::create();
+        fresh->analyseModel(model);
+        std::string d3 = analysisDigest(fresh);
+        stat("reanalyses_compared");
+        if (d2 != d1) {
+            viol("C05", "consistency:second-analysis-with-the-same-analyser-differs:" + variant, firstDiff(d1, d2), text);
+        }
+        if (d3 != d1) {
+            viol("C05", "consistency:analysis-with-a-new-analyser-differs:" + variant, firstDiff(d1, d3), text);
+        }
+        am = analyser->model();
     }
     {
         auto t = am->type();
